@@ -108,8 +108,8 @@ func validateFragmentSpreads(doc *ast.Document, s *schema.Schema, features schem
 		}
 		switch fragmentType := namedType(s, features, tc.Name.Name).(type) {
 		case *schema.ObjectType, *schema.InterfaceType, *schema.UnionType:
-			a := getPossibleTypes(s, fragmentType)
-			b := getPossibleTypes(s, parentType)
+			a := getPossibleTypes(s, features, fragmentType)
+			b := getPossibleTypes(s, features, parentType)
 			hasIntersection := false
 			for k := range a {
 				if _, ok := b[k]; ok {
@@ -154,14 +154,16 @@ func validateFragmentSpreads(doc *ast.Document, s *schema.Schema, features schem
 	return ret
 }
 
-func getPossibleTypes(s *schema.Schema, t schema.NamedType) map[string]schema.NamedType {
+func getPossibleTypes(s *schema.Schema, features schema.FeatureSet, t schema.NamedType) map[string]schema.NamedType {
 	ret := map[string]schema.NamedType{}
 	switch t := t.(type) {
 	case *schema.ObjectType:
 		ret[t.Name] = t
 	case *schema.InterfaceType:
 		for _, obj := range s.InterfaceImplementations(t.Name) {
-			ret[obj.Name] = obj
+			if obj.RequiredFeatures.IsSubsetOf(features) {
+				ret[obj.Name] = obj
+			}
 		}
 	case *schema.UnionType:
 		for _, t := range t.MemberTypes {
